@@ -41,6 +41,14 @@ SEEDS = {
     "C08b-nonlinear-rf-lastbunch": ("C08", "two or more bunches and the sinusoidal RF map (--LinearRF false): bunches beyond the first get no RF kick", []),
     "C10b-csr-intensity-accumulates": ("C10", "two or more bunches and a radiation impedance that is non-zero on the grid: /CSR/Intensity of bunch b is the running total over bunches 0..b", ["C07"]),
     "C04b-diffusion-number-capped": ("C04", "e1/cell^2 between 1/4 and 1/2 (short damping time, few steps, fine grid): the diffusion weight is capped at 1/4, equilibrium width sqrt(0.25/r)", ["C01"]),
+    "C13b-alias-not-erased-when-current-explicit": ("C13", "a legacy name (steps, RFVoltage) in the parent config AND the matching current name given explicitly: the run uses the legacy value, the saved .cfg carries the explicit one", ["C20"]),
+    "C20b-config-errors-exit-zero": ("C20", "an unknown option or a malformed value in the CONFIG FILE (not on the command line): the message is printed, nothing is simulated, but parse() returns false and the exit status is 0", []),
+    "C18b-pad-without-clear": ("C18", "updateCSR() earlier on the same object, then padBunchProfiles()/wakePotential(), with bucket 0 empty: the last bunch's profile stays at position 0 of the padded buffer", []),
+    "C15b-stochastic-damps-to-x-zerobin": ("C15", "FPTrack 3 and a grid whose two axes are shifted differently: the tracked ensemble is damped towards the position axis' zero bin", []),
+    "C05b-wake-table-frozen": ("C05", "many steps per synchrotron period (from about 256; the wake changes by less than 1e-5 cells per step): the kick table is never rebuilt while the recorded wake keeps following the bunch", ["C08"]),
+    "C16b-wall-odd-count-short": ("C16", "ResistiveWall constructed directly with an odd sample count: n-1 samples are returned (invisible through the factory)", []),
+    "C11b-negative-start-record-means-last": ("C11", "an explicit --InitialDistStep of -2 or lower: every negative index loads the last record", []),
+    "C19b-float-accumulated-modulation-phase": ("C19", "modulation active and many steps (thousands): the sine's argument is accumulated in single precision, the modulation frequency is off by 0.1-0.2 %", []),
     "C10-": ("C10", "", []),
     "C17-": ("C17", "", []),
 }
